@@ -257,7 +257,9 @@ impl Model for Hist {
 pub fn long_history_ladder(k: usize) -> (u64, Option<(String, String, String)>) {
     let doc = value_to_var(&json!({"a": {"b": [1, 2, 3]}, "rows": [{"c": 1}, {"c": 2}], "s": "x"}));
     let exprs: Vec<String> = (0..k)
-        .map(|i| match i % 6 {
+        .map(|i| match i % 8 {
+            6 => format!("sort_by(rows, &abs(s))[{}]", i % 3),           // fails inside an expression reference
+            7 => format!("rows[*].abs(@) | [{}]", i % 3),                 // fails below a projection
             0 => format!("a.b[{}]", i % 5),
             1 => format!("rows[*].c | [{}]", i % 3),
             2 => format!("{{k{}: s, v: `{}`}}", i, i),
@@ -285,6 +287,9 @@ pub fn long_history_ladder(k: usize) -> (u64, Option<(String, String, String)>) 
     orders.push((0..k).map(|i| (i * 7) % k).collect());
     orders.push((0..k).flat_map(|i| vec![i, (i + 1) % k, i]).collect());
     orders.push((0..k).flat_map(|i| vec![3 + 6 * (i % (k / 6).max(1)), i]).map(|i| i % k).collect());
+    // failing-heavy: before every revisit, the two expressions of the same block that fail inside an expression
+    // reference and below a projection
+    orders.push((0..k).flat_map(|i| vec![(i / 8) * 8 + 6, (i / 8) * 8 + 7, (i / 8) * 8 + 3, i]).filter(|&i| i < k).collect());
     orders.push((0..k).collect());
     for (oi, order) in orders.iter().enumerate() {
         for &i in order {
@@ -394,7 +399,7 @@ pub fn run(tier: Tier) -> i32 {
     st.validated += nops as u64 + N_E as u64;
     st.count("fresh_process_baselines", nops as u64 + N_E as u64);
     rep.guard("fresh-process baselines are well-formed", model.baseline.iter().all(|b| !b.starts_with("fresh process failed")));
-    // long-history ladder: many distinct expressions compiled and searched on one thread, then
+    // long-history ladder (8 kinds of expressions incl. failures inside expression references and below projections): many distinct expressions compiled and searched on one thread, then
     // revisited in other orders (bounded caches, eviction, counters that only move after hundreds of calls)
     {
         let h = std::thread::spawn(move || long_history_ladder(tier.pick(400, 1500)));
